@@ -1,9 +1,9 @@
 package main
 
 import (
-	"fmt"
 	"encoding/binary"
 	"errors"
+	"fmt"
 	"io"
 
 	"github.com/cloudwego/gopkg/bufiox"
@@ -143,6 +143,40 @@ func c17Stream(kind int, r *thrift.BufferReader) error {
 	return err
 }
 
+// the scripted source of a case: s = (final with chunks), d = the data
+func c17MkSrc(d []byte, s []V) *c17Src {
+	final := io.EOF
+	if AsInt(s[0]) == 21 {
+		// the injected value is the sentinel itself, the sentinel wrapped by a lower layer, or a
+		// lower layer's error that matches the sentinel AND carries a thrift ProtocolException in
+		// its chain (a framing layer that failed while decoding): all three must stay matchable
+		// with errors.Is after the stream reader has wrapped them
+		switch (len(d) + len(chunks0(s))) % 3 {
+		case 0:
+			final = c17ErrInjected
+		case 1:
+			final = fmt.Errorf("read frame: %w", c17ErrInjected)
+		default:
+			final = &c17Layered{pe: thrift.NewProtocolException(thrift.INVALID_DATA, "frame header")}
+		}
+	}
+	var chunks []int
+	for _, c := range AsList(s[2]) {
+		chunks = append(chunks, AsInt(c))
+	}
+	return &c17Src{data: d, final: final, with: AsInt(s[1]) != 0, chunks: chunks}
+}
+
+// skippers: as c17Obs, but an error that is not a *ProtocolException is a source error handed
+// through as it is, whose own Unwrap chain is the source's business: hascause reported as 0
+func c17ObsSkip(err error) V {
+	o := c17Obs(err).(VL)
+	if len(o) == 7 && AsInt(o[1]) == 0 {
+		o[3] = I(0)
+	}
+	return o
+}
+
 func c17Run(in V) V {
 	a := AsList(in)
 	switch AsInt(a[1]) {
@@ -153,29 +187,40 @@ func c17Run(in V) V {
 		return c17Obs(err)
 	case 2:
 		s := AsList(a[4])
-		final := io.EOF
-		if AsInt(s[0]) == 21 {
-			// the injected value is the sentinel itself, the sentinel wrapped by a lower layer, or a
-			// lower layer's error that matches the sentinel AND carries a thrift ProtocolException in
-			// its chain (a framing layer that failed while decoding): all three must stay matchable
-			// with errors.Is after the stream reader has wrapped them
-			d := AsBytes(a[3])
-			switch (len(d) + len(chunks0(s))) % 3 {
-			case 0:
-				final = c17ErrInjected
-			case 1:
-				final = fmt.Errorf("read frame: %w", c17ErrInjected)
-			default:
-				final = &c17Layered{pe: thrift.NewProtocolException(thrift.INVALID_DATA, "frame header")}
-			}
-		}
-		var chunks []int
-		for _, c := range AsList(s[2]) {
-			chunks = append(chunks, AsInt(c))
-		}
-		src := &c17Src{data: AsBytes(a[3]), final: final, with: AsInt(s[1]) != 0, chunks: chunks}
+		src := c17MkSrc(AsBytes(a[3]), s)
 		r := thrift.NewBufferReader(bufiox.NewDefaultReader(src))
 		return c17Obs(c17Stream(AsInt(a[2]), r))
+	case 3: // thrift.Binary.Skip, input flush against a PROT_NONE page
+		t := thrift.TType(int8(byte(AsInt(a[2]))))
+		_, err := thrift.Binary.Skip(c08Place(AsBytes(a[3])), t)
+		return c17ObsSkip(err)
+	case 4: // BytesSkipDecoder.Next
+		t := thrift.TType(int8(byte(AsInt(a[2]))))
+		d := thrift.NewBytesSkipDecoder(AsBytes(a[3]))
+		_, err := d.Next(t)
+		d.Release()
+		return c17ObsSkip(err)
+	case 5: // BufferReader.Skip
+		t := thrift.TType(int8(byte(AsInt(a[2]))))
+		src := c17MkSrc(AsBytes(a[3]), AsList(a[4]))
+		r := thrift.NewBufferReader(bufiox.NewDefaultReader(src))
+		err := r.Skip(t)
+		r.Recycle()
+		return c17ObsSkip(err)
+	case 6: // SkipDecoder.Next
+		t := thrift.TType(int8(byte(AsInt(a[2]))))
+		src := c17MkSrc(AsBytes(a[3]), AsList(a[4]))
+		d := thrift.NewSkipDecoder(bufiox.NewDefaultReader(src))
+		_, err := d.Next(t)
+		d.Release()
+		return c17ObsSkip(err)
+	case 7: // ReaderSkipDecoder.Next
+		t := thrift.TType(int8(byte(AsInt(a[2]))))
+		src := c17MkSrc(AsBytes(a[3]), AsList(a[4]))
+		d := thrift.NewReaderSkipDecoder(src)
+		_, err := d.Next(t)
+		d.Release()
+		return c17ObsSkip(err)
 	}
 	panic("c17: unknown tag")
 }
@@ -356,6 +401,341 @@ func c17Gen(g *Gen) {
 			cut = len(v)
 		}
 		str("stream-random", kind, v[:cut])
+	}
+	c17SkipGen(g)
+}
+
+// ---- skippers (tags 3..7) ----
+
+// c17Ask: largest single request an allocating skipper would make on b before it fails; a size
+// with the sign bit set ends the walk (every skipper rejects it before asking for anything).
+func c17Ask(b []byte, t byte, depth int, max *uint64, steps *int) (int, bool) {
+	ask := func(n uint64) bool {
+		if n > *max {
+			*max = n
+		}
+		return n <= uint64(len(b))
+	}
+	*steps++
+	if depth <= 0 || *steps > 1<<16 {
+		return 0, false
+	}
+	if s := c08Size[t]; s > 0 {
+		return s, ask(uint64(s))
+	}
+	switch t {
+	case 11:
+		if !ask(4) {
+			return 0, false
+		}
+		n := uint64(binary.BigEndian.Uint32(b))
+		if n >= 1<<31 || !ask(4+n) {
+			return 0, false
+		}
+		return 4 + int(n), true
+	case 12:
+		i := 0
+		for {
+			if i >= len(b) {
+				return 0, false
+			}
+			ft := b[i]
+			i++
+			if ft == 0 {
+				return i, true
+			}
+			if i+2 > len(b) {
+				return 0, false
+			}
+			i += 2
+			n, ok := c17Ask(b[i:], ft, depth-1, max, steps)
+			if !ok {
+				return 0, false
+			}
+			i += n
+		}
+	case 13:
+		if !ask(6) {
+			return 0, false
+		}
+		kt, vt, c := b[0], b[1], uint64(binary.BigEndian.Uint32(b[2:]))
+		if c >= 1<<31 {
+			return 0, false
+		}
+		ks, vs := c08Size[kt], c08Size[vt]
+		if ks > 0 && vs > 0 {
+			n := c * uint64(ks+vs)
+			if !ask(6 + n) {
+				return 0, false
+			}
+			return 6 + int(n), true
+		}
+		i := 6
+		for j := uint64(0); j < c; j++ {
+			for _, et := range []byte{kt, vt} {
+				n, ok := c17Ask(b[i:], et, depth-1, max, steps)
+				if !ok {
+					return 0, false
+				}
+				i += n
+			}
+		}
+		return i, true
+	case 14, 15:
+		if !ask(5) {
+			return 0, false
+		}
+		et, c := b[0], uint64(binary.BigEndian.Uint32(b[1:]))
+		if c >= 1<<31 {
+			return 0, false
+		}
+		if s := c08Size[et]; s > 0 {
+			n := c * uint64(s)
+			if !ask(5 + n) {
+				return 0, false
+			}
+			return 5 + int(n), true
+		}
+		i := 5
+		for j := uint64(0); j < c; j++ {
+			n, ok := c17Ask(b[i:], et, depth-1, max, steps)
+			if !ok {
+				return 0, false
+			}
+			i += n
+		}
+		return i, true
+	}
+	return 0, false
+}
+
+const c17AllocCap = 1 << 20
+
+func c17SkipGen(g *Gen) {
+	rot := 0
+	// every input goes to Binary.Skip and BytesSkipDecoder; to the three stream skippers in
+	// rotation (all three when all is set), unless one of them would allocate a hostile size
+	emit := func(class string, t int, b []byte, all bool) {
+		g.Add("skip-binary/"+class, Ls(I(0), I(3), I(t), Bs(b)))
+		g.Add("skip-bytesdec/"+class, Ls(I(0), I(4), I(t), Bs(b)))
+		var max uint64
+		steps := 0
+		c17Ask(b, byte(t), 80, &max, &steps)
+		if max > c17AllocCap {
+			return
+		}
+		for k := 0; k < 3; k++ {
+			if all || rot%3 == k {
+				g.Add("skip-stream/"+class, Ls(I(0), I(5+k), I(t), Bs(b), c17Source(g, len(b))))
+			}
+		}
+		rot++
+	}
+	cat := func(parts ...[]byte) []byte {
+		var o []byte
+		for _, p := range parts {
+			o = append(o, p...)
+		}
+		return o
+	}
+	zeros := func(n int) []byte { return make([]byte, n) }
+
+	// A. all 256 type bytes at top level
+	for t := 0; t < 256; t++ {
+		for _, b := range [][]byte{{}, {0}, {1, 2, 3, 4}, zeros(9), {byte(t), 0, 0, 0, 1, 0}, {0x0b, byte(t), 0, 0, 0, 0}} {
+			emit("top256", t, b, false)
+		}
+	}
+	// B. every type byte as element / key / value / field type, with bytes to parse and with none
+	var tbs []int
+	if g.Thor {
+		for t := 0; t < 256; t++ {
+			tbs = append(tbs, t)
+		}
+	} else {
+		for t := 0; t <= 20; t++ {
+			tbs = append(tbs, t)
+		}
+		tbs = append(tbs, 0x7f, 0x80, 0x81, 0x8b, 0x8c, 0xfe, 0xff)
+		for k := 0; k < 10; k++ {
+			tbs = append(tbs, 21+g.R.Intn(235))
+		}
+	}
+	for _, ti := range tbs {
+		t := byte(ti)
+		for _, tail := range [][]byte{zeros(14), {}, {0}, {0, 0, 0}} {
+			emit("elem256/list", 15, cat([]byte{t, 0, 0, 0, 1}, tail), false)
+			emit("elem256/set", 14, cat([]byte{t, 0, 0, 0, 2}, tail), false)
+			emit("elem256/mapkey", 13, cat([]byte{t, 8, 0, 0, 0, 1}, tail), false)
+			emit("elem256/mapval", 13, cat([]byte{11, t, 0, 0, 0, 1, 0, 0, 0, 0}, tail), false)
+			emit("elem256/mapval-i64key", 13, cat([]byte{10, t, 0, 0, 0, 1, 0, 0, 0, 0, 0, 0, 0, 0}, tail), false)
+			emit("elem256/field", 12, cat([]byte{t, 0, 1}, tail), false)
+			emit("elem256/field2", 12, cat([]byte{8, 0, 1, 0, 0, 0, 0, t, 0, 2}, tail), false)
+			emit("elem256/inner", 15, cat([]byte{12, 0, 0, 0, 1, 15, 0, 7, t, 0, 0, 0, 1}, tail), false)
+		}
+		emit("elem256/empty", 15, []byte{t, 0, 0, 0, 0}, false)
+		emit("elem256/empty", 13, []byte{t, t, 0, 0, 0, 0}, false)
+		emit("elem256/field-short", 12, []byte{t}, false)
+		emit("elem256/field-short", 12, []byte{t, 0}, false)
+	}
+	// C. valid encodings: every truncation point, every structural-byte substitution
+	subs := []byte{0x00, 0x01, 0x02, 0x08, 0x0b, 0x0c, 0x0d, 0x0f, 0x10, 0x7f, 0x80, 0xff}
+	for i := g.Scale(30, 900); i > 0; i-- {
+		t := c08Types[g.R.Intn(len(c08Types))]
+		if i%3 != 0 {
+			t = []byte{12, 13, 14, 15}[g.R.Intn(4)]
+		}
+		e := &c08Enc{}
+		g.c08Value(e, t, 1+g.R.Intn(4))
+		if len(e.b) > 160 {
+			continue
+		}
+		emit("valid/exact", int(t), e.b, true)
+		emit("valid/trailing", int(t), cat(e.b, []byte{0xAA, 0x0c}), false)
+		for cut := 0; cut < len(e.b); cut++ {
+			emit("valid/cut", int(t), e.b[:cut], false)
+		}
+		for _, p := range e.strukt {
+			for _, sb := range subs {
+				if e.b[p] == sb {
+					continue
+				}
+				m := append([]byte(nil), e.b...)
+				m[p] = sb
+				emit("valid/subst", int(t), m, false)
+			}
+			m := append([]byte(nil), e.b...)
+			m[p]++
+			emit("valid/subst", int(t), cat(m, zeros(8)), false)
+		}
+	}
+	// D. negative sizes on every container kind x element kind (fixed, variable, unknown), whole
+	//    and with an incomplete size field, at top level and one level down
+	negs := []uint32{0xffffffff, 0x80000000, 0x80000001, 0xc0000000, 0xfffffffe}
+	elemTypes := []byte{2, 3, 4, 6, 8, 10, 11, 12, 13, 14, 15, 0, 1, 5, 16, 0x80, 0xff}
+	tails := [][]byte{{}, {0}, zeros(8), zeros(40)}
+	type hdr struct {
+		t byte
+		h []byte // header up to the size field
+	}
+	var hdrs []hdr
+	hdrs = append(hdrs, hdr{11, nil})
+	for _, et := range elemTypes {
+		hdrs = append(hdrs, hdr{15, []byte{et}}, hdr{14, []byte{et}})
+		for _, vt := range []byte{2, 8, 10, 11, 12, 15, 1, 0x80} {
+			hdrs = append(hdrs, hdr{13, []byte{et, vt}}, hdr{13, []byte{vt, et}})
+		}
+	}
+	for _, h := range hdrs {
+		for ni, x := range negs {
+			if !g.Thor && ni >= 2 && h.t == 13 && (ni+int(h.h[0])+int(h.h[1]))%3 != 0 {
+				continue
+			}
+			sz := c17BE32(x)
+			for ti, tail := range tails {
+				v := cat(h.h, sz, tail)
+				emit("negative/top", int(h.t), v, h.t != 13 && ti == 0)
+				if ti >= 2 && !g.Thor {
+					continue
+				}
+				// one level down: struct field, list element, map value behind a string key
+				emit("negative/field", 12, cat([]byte{h.t, 0, 1}, v), false)
+				emit("negative/elem", 15, cat([]byte{h.t, 0, 0, 0, 2}, v), false)
+				emit("negative/mapval", 13, cat([]byte{11, h.t, 0, 0, 0, 1, 0, 0, 0, 1, 'k'}, v), false)
+			}
+			// the size field itself incomplete (sign bit visible or not)
+			for cut := 1; cut <= 3; cut++ {
+				emit("negative/short-size", int(h.t), cat(h.h, sz[:cut]), false)
+			}
+		}
+		// positive sizes that do not fit (truncation, not negative size)
+		for _, x := range []uint32{1, 2, 0x7fffffff, 0x7ffffffe, 0x40000000, 0x10000} {
+			for _, tail := range tails[:3] {
+				emit("oversized/top", int(h.t), cat(h.h, c17BE32(x), tail), false)
+			}
+		}
+	}
+	// negative string lengths in every position a string can take
+	for _, x := range negs {
+		sz := c17BE32(x)
+		for _, tail := range tails[:3] {
+			emit("negative/str-field", 12, cat([]byte{11, 0, 1}, sz, tail), true)
+			emit("negative/str-field2", 12, cat([]byte{2, 0, 1, 1, 11, 0, 2}, sz, tail), false)
+			emit("negative/str-elem", 15, cat([]byte{11, 0, 0, 0, 2, 0, 0, 0, 1, 'x'}, sz, tail), true)
+			emit("negative/str-key", 13, cat([]byte{11, 8, 0, 0, 0, 1}, sz, tail), false)
+			emit("negative/str-val", 13, cat([]byte{8, 11, 0, 0, 0, 1, 0, 0, 0, 7}, sz, tail), false)
+			emit("negative/str-val2", 13, cat([]byte{11, 11, 0, 0, 0, 1, 0, 0, 0, 0}, sz, tail), false)
+		}
+	}
+	// E. nesting 1..70 (dense around 63..66) of every container kind, with complete, unknown-type
+	//    and truncated innermost values
+	type leaf struct {
+		t byte
+		b []byte
+	}
+	leaves := []leaf{{8, []byte{0, 0, 0, 5}}, {11, []byte{0, 0, 0, 1, 'a'}}, {2, []byte{1}}, {12, []byte{0}},
+		{15, []byte{0x80, 0, 0, 0, 0}}, {13, []byte{0, 0xff, 0, 0, 0, 0}},
+		{15, []byte{10, 0, 0, 0, 2, 1, 2, 3, 4, 5, 6, 7, 8, 1, 2, 3, 4, 5, 6, 7, 8}},
+		{1, []byte{}}, {1, []byte{0}}, {0x80, []byte{7, 7}}, {12, []byte{}}, {15, []byte{8, 0}}, {11, []byte{0xff, 0xff, 0xff, 0xff}},
+		{15, []byte{8, 0xff, 0xff, 0xff, 0xff}}, {11, []byte{}}, {8, []byte{}}}
+	for kind := 0; kind < 6; kind++ {
+		k := kind
+		kf := func(l int) int {
+			if k == 5 {
+				return l % 5
+			}
+			return k
+		}
+		for _, lf := range leaves {
+			for n := 1; n <= 70; n++ {
+				if !g.Thor && !(n <= 2 || (n >= 61 && n <= 67) || n == 33 || n == 70) {
+					continue
+				}
+				t, b := lf.t, lf.b
+				for l := 0; l < n; l++ {
+					t, b = c08Wrap(kf(l), t, b)
+				}
+				emit("nest", int(t), b, n >= 62 && n <= 66)
+				if n >= 62 && n <= 66 {
+					// the last bytes missing
+					for _, c := range []int{1, 2, 3, 5} {
+						if c < len(b) {
+							emit("nest/cut", int(t), b[:len(b)-c], false)
+						}
+					}
+				}
+			}
+		}
+	}
+	// nested containers whose chain ends at every prefix length around the limit: "no byte left"
+	// and "no budget" at the same point
+	for kind := 0; kind < 5; kind++ {
+		for n := 62; n <= 66; n++ {
+			t, b := byte(12), []byte{0}
+			for l := 0; l < n; l++ {
+				t, b = c08Wrap(kind, t, b)
+			}
+			hl := []int{3, 5, 5, 6, 8}[kind] // bytes in front of the inner value per level
+			for lv := 62; lv <= n; lv++ {
+				for d := -1; d <= 1; d++ {
+					cut := lv*hl + d
+					if cut >= 0 && cut <= len(b) {
+						emit("nest/prefix", int(t), b[:cut], false)
+					}
+				}
+			}
+		}
+	}
+	// F. random strings over the grammar alphabet
+	alpha := []byte{0, 1, 2, 3, 4, 6, 8, 10, 11, 12, 13, 14, 15, 16, 0x7f, 0x80, 0xff}
+	for i := g.Scale(2500, 120000); i > 0; i-- {
+		n := 1 + g.R.Intn(10)
+		b := make([]byte, n)
+		for j := range b {
+			b[j] = alpha[g.R.Intn(len(alpha))]
+		}
+		t := []int{11, 12, 13, 14, 15}[g.R.Intn(5)]
+		emit("random", t, b, false)
 	}
 }
 
